@@ -1,7 +1,7 @@
 (* C09 — flattened(), update() and add_bundle() conserve records.
    Statements only; proofs in theories/WorldProofs.v, InterpProofs.v. *)
 From Coq Require Import String List Arith.
-From Prov Require Import Str Sexp Tables Nsm NsmProofs Values Record RecordProofs World Interp WorldProofs InterpProofs WInvUProofs IdemProofs ReaddProofs GoodProofs Derive UpdateProofs.
+From Prov Require Import Str Sexp Tables Nsm NsmProofs Values Record RecordProofs World Interp WorldProofs InterpProofs WInvUProofs IdemProofs ReaddProofs GoodProofs Derive UpdateProofs UpdateStepProofs.
 Import ListNotations.
 Open Scope string_scope.
 
@@ -127,6 +127,55 @@ Theorem C09_update_bundles_land : forall ft bs dd dd',
     brecs tb' = (pre ++ rs' ++ post)%list /\ Forall2 (image_of ft) (brecs sb) rs'.
 Proof. exact merge_bundles_images. Qed.
 Print Assumptions C09_update_bundles_land.
+
+(* ---- d.update(other), two documents, in every reachable world.  update_result ft dd odoc nd:
+   nd's own records are dd's followed by the images of odoc's, in order; every bundle of dd is in nd at
+   the same place under the same key and identifier with its records as a prefix; every bundle of odoc
+   is, as one block of images in order, in the bundle of nd of the same identifier. *)
+Theorem C09_update_documents : forall ft ops d od dd odoc w',
+  let w := wrun ft ops in
+  get_doc w d = Some dd -> get_doc w od = Some odoc ->
+  step w (OUpdate (CDoc d) (CDoc od)) = (w', RUnit) ->
+  exists nd, get_doc w' d = Some nd /\ update_result (wft w) dd odoc nd.
+Proof. exact reachable_update_doc. Qed.
+Print Assumptions C09_update_documents.
+
+(* bundle.update(other): the bundle's records followed by the images of other's *)
+Theorem C09_update_bundle : forall ft ops d i o b ob w',
+  let w := wrun ft ops in
+  get_cont w (CBun d i) = Some b -> get_cont w o = Some ob ->
+  step w (OUpdate (CBun d i) o) = (w', RUnit) ->
+  exists b' rs', get_cont w' (CBun d i) = Some b' /\
+                 brecs b' = (brecs b ++ rs')%list /\ Forall2 (image_of (wft w)) (brecs ob) rs'.
+Proof. exact reachable_update_bundle. Qed.
+Print Assumptions C09_update_bundle.
+
+(* add_bundle(document, identifier) that succeeds: one new bundle at the end, under the requested
+   identifier (same URI), holding the images of the document's records in order; the target's own
+   records and other bundles as before; the identifier was not in use *)
+Theorem C09_add_bundle_attaches : forall ft ops d src x order dd sd w',
+  let w := wrun ft ops in
+  get_doc w d = Some dd -> get_doc w src = Some sd ->
+  step w (OAddBundleDoc d src x order) = (w', RUnit) ->
+  exists q nb,
+    get_doc w' d = Some (mkD (dmain dd) (dbundles dd ++ [(qn_uri q, nb)])%list) /\
+    bid nb = Some q /\ Forall2 (image_of (wft w)) (brecs (dmain sd)) (brecs nb) /\
+    mem (qn_uri q) (dbundles dd) = false /\
+    (forall q0, x = Some (NQn q0) -> qn_uri q = qn_uri q0).
+Proof. exact reachable_add_bundle. Qed.
+Print Assumptions C09_add_bundle_attaches.
+
+Example C09_update_computes :
+  match step u_w (OUpdate (CDoc 0) (CDoc 1)) with
+  | (w', RUnit) =>
+      match get_doc w' 0 with
+      | Some nd => (map rkind (brecs (dmain nd)),
+                    map (fun kb => (fst kb, map rkind (brecs (snd kb)))) (dbundles nd))
+      | None => ([], [])
+      end
+  | _ => ([], [])
+  end = (["Entity"; "Agent"], [("http://e/b1", ["Entity"; "Entity"]); ("http://e/b2", ["Activity"])]).
+Proof. exact update_computes. Qed.
 
 (* full statement not yet proved: the re-created record carries the same attribute
    name URIs and the same strict values (needs idempotence of normalisation on
